@@ -1,5 +1,7 @@
 import Proofs.Lemmas.Batch
 import Pose.Gen.Handled
+import Pose.Gen.LTypes
+import Pose.Gen.Purity
 /-!
 # C06 — batching, broadcasting and views are transparent; patching is undone
 
@@ -134,6 +136,53 @@ theorem broadcast_spec {a b out : Shape} (h : broadcastShapes a b = some out) :
 example : broadcastShapes [2, 1, 3] [4, 1] = some [2, 4, 3] ∧ broadcastShapes [] [] = some [] ∧
     broadcastShapes [0, 3] [3] = some [0, 3] ∧ broadcastShapes [2] [3] = none ∧
     broadcastShapes [1] [0] = some [0] ∧ proj [4, 1] [1, 3, 2] = [3, 0] := by decide
+
+/-- **The torch rule characterises the result** (converse of `broadcast_spec`): an lshape of the larger rank that agrees,
+dimension by dimension (aligned at the trailing end), with each operand or meets a 1 there IS the broadcast. -/
+theorem broadcast_iff (a b out : Shape) :
+    broadcastShapes a b = some out ↔
+      out.length = max a.length b.length ∧ ∀ k, k < out.length →
+        ((padTo out.length a).getD k 0 = out.getD k 0 ∨ (padTo out.length a).getD k 0 = 1) ∧
+        ((padTo out.length b).getD k 0 = out.getD k 0 ∨ (padTo out.length b).getD k 0 = 1) ∧
+        (out.getD k 0 = (padTo out.length a).getD k 0 ∨ out.getD k 0 = (padTo out.length b).getD k 0) := by
+  constructor
+  · exact broadcast_spec
+  · rintro ⟨hl, h⟩
+    unfold broadcastShapes
+    simp only
+    rw [← hl]
+    exact bzip_of_spec _ _ out (by rw [padTo_length]; rw [hl]; exact Nat.le_max_left _ _)
+      (by rw [padTo_length]; rw [hl]; exact Nat.le_max_right _ _) h
+
+/-- the broadcast result is unique and not broadcastable means: no lshape satisfies the rule -/
+theorem broadcast_none_iff (a b : Shape) : broadcastShapes a b = none ↔ ¬ ∃ out, broadcastShapes a b = some out := by
+  cases broadcastShapes a b <;> simp
+
+/-- **`broadcastShapes` is what torch computes**: the loop of `torch._refs._broadcast_shapes` (initialise with ones, merge
+every shape from the trailing end, positions a shape lacks stay) returns the same lshape — or raises — for every pair
+of shapes of every rank, extents 0 and 1 included. -/
+theorem broadcastShapes_eq_torch (a b : Shape) : broadcastShapes a b = torchBroadcast a b := by
+  rw [broadcastShapes_eq_bcastRev _ a b rfl]
+  unfold torchBroadcast
+  simp only
+  rw [mergeRev_ones _ _ (by simp; exact Nat.le_max_left _ _)]
+  simp only [List.length_reverse]
+  have := mergeRev_pad a.reverse b.reverse
+  simp only [List.length_reverse] at this
+  rw [this]
+
+/-- the item dimension rides along: broadcasting the full shapes `lshape ++ [d]` is broadcasting the lshapes -/
+theorem broadcast_append_last (a b : Shape) (d : Nat) :
+    broadcastShapes (a ++ [d]) (b ++ [d]) = (broadcastShapes a b).map (· ++ [d]) := by
+  rw [broadcastShapes_eq_bcastRev _ _ _ rfl, broadcastShapes_eq_bcastRev _ a b rfl]
+  simp only [List.reverse_append, List.reverse_cons, List.reverse_nil, List.nil_append, List.singleton_append, bcastRev]
+  have : bdim d d = some d := by simp [bdim]
+  rw [this]
+  cases bcastRev a.reverse b.reverse <;> simp
+
+example : torchBroadcast [2, 1, 3] [4, 1] = some [2, 4, 3] ∧ torchBroadcast [0, 3] [3] = some [0, 3] ∧
+    torchBroadcast [2] [3] = none ∧ torchBroadcast [] [1, 0] = some [1, 0] := by decide
+
 
 /-! ## unary ops -/
 
@@ -444,6 +493,146 @@ example : (binop (fun (a b : Nat) => (a, b)) 3 3 ⟨[0, 1], fun k => k⟩ ⟨[3]
     some ([0, 3], 3) ∧
     (binop (fun (a b : Nat) => (a, b)) 3 3 ⟨[], fun k => k⟩ ⟨[], fun k => k⟩).map (fun r => (r.shape, r.last, r.data 0)) =
     some ([], 3, (0, 0)) := by decide
+
+/-! ## ltypes, op signatures, memory effects, syntactic purity (pass 3) -/
+
+/-- the generated LieType table of `/repo` is the documented one (names, dimension, embedding, manifold; all eight) -/
+theorem ltypes_table : PP.Gen.ltypes.length = 8 ∧ ∀ t ∈ LT.all, (t.className, t.dims.1, t.dims.2.1, t.dims.2.2) ∈ PP.Gen.ltypes := by
+  decide
+
+/-- structure of the table: an algebra has dimension = manifold, its group one more; both share embedding and manifold -/
+theorem ltypes_structure : ∀ t ∈ LT.all,
+    t.algebra.onManifold = true ∧ t.group.onManifold = false ∧ t.group.dim = t.algebra.dim + 1 ∧
+    t.group.dims.2.1 = t.group.dim ∧ t.algebra.dims.2.1 = t.group.dim ∧ t.algebra.manifold = t.group.manifold ∧
+    t.algebra.dim = t.algebra.manifold := by decide
+
+/-- Exp and Log are defined exactly on algebras / groups and are mutually inverse on ltypes -/
+theorem sig_exp_log : ∀ t ∈ LT.all,
+    ((sig .Exp t).isSome = t.onManifold) ∧ ((sig .Log t).isSome = !t.onManifold) ∧
+    (t.onManifold = true → sig .Exp t = some (.lie t.group) ∧ sig .Log t.group = some (.lie t)) ∧
+    (t.onManifold = false → sig .Log t = some (.lie t.algebra) ∧ sig .Exp t.algebra = some (.lie t)) := by decide
+
+/-- every LieTensor an op returns passes the constructor's shape assertion, for every lshape: the `LieTensor(out, ltype=…)`
+wrapping inside the ops never trips `__init__`'s check -/
+theorem sig_init_ok (op : Op) (t r : LT) (ls : Shape) (_h : sig op t = some (.lie r)) : initOk r ((Res.lie r).shape ls) = true := by
+  simp [initOk, Res.shape]
+
+/-- the item width the binary op sites pass to `view` (`dOut`) is the dimension of the ltype they wrap the result in -/
+theorem sig_binop_dout : ∀ t ∈ LT.all, t.onManifold = false →
+    sig .Mul t = some (.lie t) ∧ sig .Retr t = some (.lie t) ∧ sig .add t = some (.lie t) ∧
+    sig .Adj t = some (.lie t.algebra) ∧ sig .AdjT t = some (.lie t.algebra) ∧ sig .Jinvp t = some (.lie t.algebra) ∧
+    t.algebra.dim = t.manifold := by decide
+
+/-- group-only ops raise on algebras; `Jr` exists for SO3 / so3 only -/
+theorem sig_errors : ∀ t ∈ LT.all,
+    (t.onManifold = true → sig .Mul t = some (.lie t) ∧ sig .Act3 t = none ∧ sig .Act4 t = none ∧ sig .Retr t = none ∧ sig .Adj t = none ∧
+      sig .AdjT t = none ∧ sig .Jinvp t = none ∧ sig .Log t = none) ∧
+    ((sig .Jr t).isSome = decide (t.group = LT.SO3)) := by decide
+
+/-- a batched binary op site returns, for every broadcastable lshape pair, exactly the shape of the signature table:
+broadcast lshape followed by the result ltype's dimension — and that shape passes `LieTensor.__init__` -/
+theorem op_result_shape {α β γ : Type} (f : α → β → γ) (op : Op) (t r : LT) (hs : sig op t = some (.lie r)) (x : T α) (y : T β)
+    (out : Shape) (h : broadcastShapes x.shape y.shape = some out) :
+    ∃ res, binop f r.dim r.dim x y = some res ∧ res.shape ++ [res.last] = (Res.lie r).shape out ∧
+      initOk r (res.shape ++ [res.last]) = true := by
+  have hd : 0 < r.dim := by cases r <;> decide
+  obtain ⟨res, h1, h2, h3⟩ := broadcast_lastdim f r.dim hd x y out h
+  refine ⟨res, h1, by simp [Res.shape, h2, h3], by simp [initOk, h3]⟩
+
+/-! memory effects -/
+
+/-- every handled function of the regenerated list has a memory effect in the model -/
+theorem handled_effects_defined : ∀ n ∈ PP.Gen.handled, ((semOf n).map effectOf).isSome = true := by decide
+
+/-- **the in-place functions of the list are exactly those the naming convention marks** (trailing underscore /
+`__setitem__`) — over the list as it is in `/repo` now -/
+theorem handled_inplace_iff_name : ∀ n ∈ PP.Gen.handled,
+    ((semOf n).map effectOf = some Effect.inplace) = (inplaceName n = true) := by decide
+
+/-- an effect other than `inplace` leaves every existing slot as it was (and never frees one) -/
+theorem effect_pure {α : Type} (e : Effect) (he : e ≠ .inplace) (st : Store α) (self : Nat) (val : α) :
+    (∀ s, s < st.next → (applyEffect e st self val).1.mem s = st.mem s) ∧ st.next ≤ (applyEffect e st self val).1.next := by
+  cases e with
+  | fresh =>
+    refine ⟨fun s hs => ?_, by simp [applyEffect]⟩
+    simp only [applyEffect]
+    have : s ≠ st.next := by omega
+    simp [this]
+  | view => exact ⟨fun _ _ => rfl, Nat.le_refl _⟩
+  | inplace => exact absurd rfl he
+
+/-- **Non-mutation of the handled functions in the model**: every function of the regenerated list whose name carries no
+trailing underscore leaves every operand slot untouched — all existing memory is bit for bit what it was. -/
+theorem handled_nonunderscore_pure {α : Type} (n : String) (hn : n ∈ PP.Gen.handled) (hu : inplaceName n = false)
+    (st : Store α) (self : Nat) (val : α) :
+    ∃ r, applyHandled n st self val = some r ∧ ∀ s, s < st.next → r.1.mem s = st.mem s := by
+  have hdef := handled_effects_defined n hn
+  have hiff := handled_inplace_iff_name n hn
+  unfold applyHandled
+  cases hs : semOf n with
+  | none => simp [hs] at hdef
+  | some sem =>
+    simp only [Option.map_some]
+    refine ⟨_, rfl, ?_⟩
+    have hne : effectOf sem ≠ .inplace := by
+      intro he
+      rw [hs] at hiff
+      simp only [Option.map_some, he, hu] at hiff
+      simp at hiff
+    exact (effect_pure (effectOf sem) hne st self val).1
+
+/-- **Purity over histories**: any sequence of handled functions of the regenerated list, none of which carries a trailing
+underscore, leaves every slot that existed at the start bit for bit unchanged — however long the sequence and whatever
+operands (including results of earlier calls) it uses. -/
+theorem handled_history_pure {α : Type} : ∀ (calls : List (String × Nat × α)) (st : Store α),
+    (∀ c ∈ calls, c.1 ∈ PP.Gen.handled ∧ inplaceName c.1 = false) →
+    ∃ st', runHandled st calls = some st' ∧ st.next ≤ st'.next ∧ ∀ s, s < st.next → st'.mem s = st.mem s
+  | [], st, _ => ⟨st, rfl, Nat.le_refl _, fun _ _ => rfl⟩
+  | (n, self, v) :: rest, st, h => by
+    have hc := h (n, self, v) List.mem_cons_self
+    obtain ⟨r, hr, hpure⟩ := handled_nonunderscore_pure n hc.1 hc.2 st self v
+    have hnext : st.next ≤ r.1.next := by
+      unfold applyHandled at hr
+      cases hs : semOf n with
+      | none => simp [hs] at hr
+      | some sem =>
+        simp only [hs, Option.map_some, Option.some.injEq] at hr
+        subst hr
+        cases effectOf sem <;> simp [applyEffect]
+    obtain ⟨st', h1, h2, h3⟩ := handled_history_pure rest r.1 (fun c hcm => h c (List.mem_cons_of_mem _ hcm))
+    refine ⟨st', by simp [runHandled, hr, h1], Nat.le_trans hnext h2, ?_⟩
+    intro s hs
+    rw [h3 s (by omega), hpure s hs]
+
+example : ((runHandled (⟨fun s => 10 * s, 2⟩ : Store Nat) [("cat", 0, 7), ("permute", 2, 8), ("index_copy", 1, 9)]).map
+    fun st => ((List.range 4).map st.mem, st.next)) = some ([0, 10, 7, 9], 4) := by decide
+
+/-- an in-place function writes its first operand's slot only -/
+theorem effect_inplace_local {α : Type} (st : Store α) (self : Nat) (val : α) :
+    (applyEffect .inplace st self val).2 = self ∧ (applyEffect .inplace st self val).1.mem self = val ∧
+    ∀ s, s ≠ self → (applyEffect .inplace st self val).1.mem s = st.mem s := by
+  refine ⟨rfl, by simp [applyEffect], fun s hs => by simp [applyEffect, hs]⟩
+
+/-! syntactic purity of the source -/
+
+/-- **No public function of the anchored files without a trailing underscore writes in place through anything that may
+alias one of its arguments** — a finite table regenerated from `/repo`'s source on every run (python `ast`; the alias rules
+are those of `harness/extract.py`), so `decide` is a proof about exactly this source text. -/
+theorem source_purity : ∀ f ∈ PP.Gen.functions, f.2.2.1 = true → f.2.2.2.1 = false → f.2.2.2.2 = [] := by decide +kernel
+
+/-- the table is not vacuous: it does see the in-place API (`add_`, `identity_`, `cumops_`, …) -/
+theorem source_inplace_seen : ∃ f ∈ PP.Gen.functions, f.2.1 = "LieTensor.add_" ∧ f.2.2.2.2 ≠ [] := by decide +kernel
+
+example : sig .Exp .se3 = some (.lie .SE3) ∧ sig .Exp .SE3 = none ∧ sig .Jinvp .Sim3 = some (.lie .sim3) ∧ sig .Act4 .RxSO3 = some (.tensor [4]) ∧
+    sig .matrix .so3 = some (.tensor [3, 3]) ∧ sig .Jr .SE3 = none ∧ (Res.lie LT.sim3).shape [2, 0, 3] = [2, 0, 3, 7] ∧
+    initOk .SE3 [5, 7] = true ∧ initOk .SE3 [5, 8] = false := by decide
+example : inplaceName "copy_" = true ∧ inplaceName "__setitem__" = true ∧ inplaceName "__getitem__" = false ∧ inplaceName "clone" = false ∧
+    (semOf "index_copy_").map effectOf = some Effect.inplace ∧ (semOf "index_copy").map effectOf = some Effect.fresh ∧
+    (semOf "view").map effectOf = some Effect.view := by decide
+example : let st : Store Nat := ⟨fun s => 10 * s, 3⟩
+    ((applyHandled "cat" st 1 99).map fun r => ((List.range 4).map r.1.mem, r.1.next, r.2)) = some ([0, 10, 20, 99], 4, 3) ∧
+    ((applyHandled "copy_" st 1 99).map fun r => ((List.range 4).map r.1.mem, r.1.next, r.2)) = some ([0, 99, 20, 30], 3, 1) ∧
+    ((applyHandled "permute" st 1 99).map fun r => ((List.range 4).map r.1.mem, r.1.next, r.2)) = some ([0, 10, 20, 30], 3, 1) := by decide
 
 /-! ## `retain_ltype` / `func.jacrev`: the patch is undone on every exit path -/
 namespace Retain
@@ -765,6 +954,24 @@ theorem retain_atomic (ord : List Nat) (h3 : 3 ∉ ord) (t : Table) (hw : WellHo
       simp only at r1 r2
       subst r2
       exact ⟨rfl, restore_congr _ u u' r1⟩
+
+theorem depth_nestN (n : Nat) (b : Body) : (nestN n b).depth = n + b.depth ∨ (nestN n b).depth = max n (n + b.depth) := by
+  induction n with
+  | zero => left; simp [nestN]
+  | succ n ih =>
+    left
+    simp only [nestN, Body.depth]
+    rcases ih with h | h <;> rw [h] <;> omega
+
+/-- **Nesting of arbitrary depth**: `n` contexts inside one another around any body (which may itself nest, call and raise)
+— for every `n` the torch slots are restored, and the exception of the innermost body reaches the outside. -/
+theorem retain_restores_depth (ord : List Nat) (h3 : 3 ∉ ord) (n : Nat) (b : Body) (fa : Option Nat) :
+    ∀ q, q ≠ 3 → (retain ord pristine (nestN n b) fa).1 q = Fn.orig q :=
+  retain_restores_pristine ord h3 (nestN n b) fa
+
+example : (nestN 7 (.call 1 .raise)).depth = 7 ∧
+    (List.range 3).map (retain [1, 2, 0] pristine (nestN 7 (.call 1 .raise)) none).1 = [Fn.orig 0, Fn.orig 1, Fn.orig 2] ∧
+    (retain [1, 2, 0] pristine (nestN 7 (.call 1 .raise)) none).2.1 = Outcome.raised := by decide
 
 example : let t0 : Table := fun q => Fn.orig q
     let r := retain [2, 0, 1] t0 (.call 0 (.nest (.call 1 .raise) .ret)) none
